@@ -299,30 +299,11 @@ Definition pac_process_j (j : jv) : jv :=
   | _ => jbad
   end.
 
-(* the same without the signature check: everything up to pac.verify (cheap: no crypto) *)
-Definition pac_structure_j (j : jv) : jv :=
-  match j with
-  | JL [JB pac; JL flags] =>
-    match map_opt as_int flags with
-    | Some dec =>
-      jres (fun st => [match st_kvi st with Some k => JI k | None => JI (-1) end;
-                       match st_srv st with Some s => jsig s | None => JL [] end;
-                       match st_kdc st with Some s => jsig s | None => JL [] end;
-                       match st_ci st with Some (i, c) => JL [JI i; jci c] | None => JL [] end;
-                       JL (map (fun ty => jopt_idx ty (st_opt st)) [11; 12; 13; 14; 15]);
-                       JB (st_zsd st)])
-           (do pt <- pac_unmarshal pac;
-            process_loop pac (annotate 0 (pt_buffers pt) dec) (init_state pac))
-    | None => jbad
-    end
-  | _ => jbad
-  end.
-
 Definition pac_unmarshal_j (j : jv) : jv :=
   match j with
   | JB b =>
     jres (fun pt => [JI (pt_cbuffers pt); JI (pt_version pt);
-                     JL (map (fun x => JL [JI (ib_type x); JI (ib_size x); JI (ib_off x)]) (pt_buffers pt))])
+                     JL (map (fun x => JL [JI (ib_type x); JI (ib_size x); JB (le_bytes 8 (ib_off x))]) (pt_buffers pt))])
          (pac_unmarshal b)
   | _ => jbad
   end.
